@@ -1475,6 +1475,8 @@ func runC06(c *Ctx) int {
 	fl("target_headers_colliding_with_vegeta_keys", 250, 18000)
 	fl("host_overrides_checked", 250, 17000)
 	fl("chunked_requests_with_body", 250, 35000)
+	c06Wire(c, run)
+	run.Floor("wire_requests", int64(c.Pick(400, 7000)))
 	run.FloorDistinct(c.Pick(5000, 200000))
 	return run.Finish()
 }
